@@ -11,6 +11,7 @@ use sliding_features::View;
 
 pub struct C05;
 
+const LARGE_NS: [usize; 4] = [100, 257, 300, 520];
 const CLASSES: [Class; 12] = [
     Class::Walk,
     Class::SmallInt,
@@ -167,11 +168,29 @@ impl Monitor for C05 {
         "C05"
     }
     fn plan(&self, cfg: &Cfg) -> u64 {
-        (2 * ns(cfg).len() * CLASSES.len()) as u64 * cfg.tier.pick(4, 16)
+        (2 * ns(cfg).len() * CLASSES.len()) as u64 * cfg.tier.pick(4, 16) + 2 * LARGE_NS.len() as u64 * cfg.tier.pick(4, 16)
     }
     fn trial(&self, cfg: &Cfg, idx: u64, out: &mut TrialOut) {
         let nl = ns(cfg);
         let mut rng = Rng::for_trial(cfg.seed, "C05", idx);
+        let main = (2 * nl.len() * CLASSES.len()) as u64 * cfg.tier.pick(4, 16);
+        if idx >= main {
+            // windows beyond any internal block size
+            let j = idx - main;
+            let n = LARGE_NS[((j / 2) % LARGE_NS.len() as u64) as usize];
+            let k = kind(j % 2, n);
+            let exact = (j / (2 * LARGE_NS.len() as u64)) % 2 == 0;
+            let class = *rng.pick(&[Class::Walk, Class::SmallInt, Class::Uniform, Class::Blocks, Class::Step]);
+            let xs = gen::gen(class, n, if exact { n + 200 } else { 3 * n + 400 }, &mut rng);
+            out.key(mix(hash_str(&format!("large{:?}{}", k, exact)), gen::hash_f64s(&xs)));
+            out.count("large_window_trials", 1);
+            if exact {
+                run_exact(k, &xs, out)
+            } else {
+                run_f64(k, &xs, out)
+            }
+            return;
+        }
         let n = nl[((idx / 2) % nl.len() as u64) as usize];
         let n = super::jitter_n(cfg, n, 1, 64, &mut rng);
         let k = kind(idx % 2, n);
@@ -194,7 +213,7 @@ impl Monitor for C05 {
         ["Rsi/exact", "Rsi/f64", "Rsi/negation", "MyRSI/exact", "MyRSI/f64", "MyRSI/negation"].iter().map(|s| s.to_string()).collect()
     }
     fn rule(&self) -> String {
-        "trial = (Rsi or MyRSI, N, input class: ties, monotone runs, spikes entering and leaving, flat after volatile, ..., scalar); after every update last() is compared with 100 G/(G+L) (100 when L=0) resp. (G-L)/(G+L) (held while G+L=0) evaluated from the recorded history over the N most recent values in exact arithmetic: equality at the exact scalar (plus the negation relation on every non-flat window), tolerance scale x (4 envelope/(G+L) + 64 N eps) at f64 where G+L exceeds 1000 x the rounding envelope. distinct = distinct (view, N, scalar, input hash)".into()
+        "trial = (Rsi or MyRSI, N (grid and random to 64, plus 100, 257, 300, 520), input class: ties, monotone runs, spikes entering and leaving, flat after volatile, ..., scalar); after every update last() is compared with 100 G/(G+L) (100 when L=0) resp. (G-L)/(G+L) (held while G+L=0) evaluated from the recorded history over the N most recent values in exact arithmetic: equality at the exact scalar (plus the negation relation on every non-flat window), tolerance scale x (4 envelope/(G+L) + 64 N eps) at f64 where G+L exceeds 1000 x the rounding envelope. distinct = distinct (view, N, scalar, input hash)".into()
     }
     fn assumptions(&self) -> Vec<String> {
         vec!["MyRSI on a stream flat from its very first value has no previous output to hold: no claim (counted)".into(), "f64 steps whose exact G+L is within the rounding envelope belong to C07/C16".into()]
